@@ -311,7 +311,9 @@ pub fn run(cfg: &Cfg) -> i32 {
     let mut ev = Evidence::new("C03", cfg);
     let quick = cfg.quick();
     let ops = alphabet(quick);
-    let depth = if quick { 3 } else { 4 };
+    let depth = 3;
+    // thorough: the full source alphabet at the same depth, plus one operation more after the bare clone
+    let deep_first = !quick;
     // (3) no hidden global state: two boots and a clone of a boot render the same
     {
         let (a, b) = (fresh(), fresh());
@@ -327,7 +329,7 @@ pub fn run(cfg: &Cfg) -> i32 {
     // clone-creating prefixes [s, clone A->B] for every source s (share first, then diverge), or clone first
     let mut prefixes: Vec<(Vec<usize>, usize)> = vec![];
     let clone_ab = ops.iter().position(|o| *o == Op::Clone(0, 1)).unwrap();
-    prefixes.push((vec![clone_ab], depth));
+    prefixes.push((vec![clone_ab], if deep_first { depth + 1 } else { depth }));
     for (i, o) in ops.iter().enumerate() {
         if let Op::Eval(0, _) | Op::Step(0, _) = o {
             // definitions shared by both copies get the full depth (shadowing / caching across copies)
